@@ -234,6 +234,8 @@ def run_case(case: dict) -> dict:
 
     async def do(req, rid: str):
         kind, name = req[0], req[1] if len(req) > 1 else None
+        if len(req) > 2 and req[2]:
+            await _steps(req[2])          # start delay (scheduler steps)
         rec = {"rid": rid, "req": req, "start": world.ev("req-start:" + kind, name or "*")}
         out["requests"].append(rec)
         world.seg("start")
